@@ -11,13 +11,15 @@
 //! ops:  elem <name> <Type> <rank|-> <tag|-> <class|->
 //!       prop <subject name> <object name> <class|->
 //!       rgrant <scope> <cons>                      (actions are fixed: every read-side permission)
+//!       dgrant <actions csv> <scope> <cons>        (a delegable Grant of the delegator `lead`)
+//!       rdeleg <actions csv> <scope> <cons>        (a Delegation lead → reader; the reader may hold nothing else)
 //!       mask <none|attributes|name>                (which member the Grants' field mask hides)
 //!       q <command text; <<id:NAME>> = that element's id in the store at hand, <<seq:K>> / <<seqmid:K>> = the Space
 //!          sequence after step K / between creating and classifying the element of step K>
 //!       page <limit> <command text>                (run, then follow the cursor once)
 use crate::wire::*;
 use crate::{fresh, CaseOut};
-use anda_cognitive_nexus::governance::store::{GrantDraft, PrincipalDraft};
+use anda_cognitive_nexus::governance::store::{DelegationDraft, GrantDraft, PrincipalDraft};
 use anda_cognitive_nexus::governance::{AuthContext, SYSTEM_PRINCIPAL};
 use anda_cognitive_nexus::nexus::{Session, DEFAULT_SPACE};
 use anda_cognitive_nexus::ElementId;
@@ -27,6 +29,7 @@ use vh_common::serde_json::{self, json, Value};
 use vh_common::{ModelProc, Rng};
 
 pub const READER: &str = "kip:principal:reader";
+pub const LEAD: &str = "kip:principal:lead";
 const READ_ACTIONS: [&str; 6] = ["read", "search", "discover", "read_history", "project", "export"];
 
 pub async fn exec(session: &Session, text: &str, params: Option<Value>) -> Response {
@@ -57,7 +60,15 @@ struct ElemSpec { name: String, ty: String, rank: Option<i64>, tag: Option<Strin
 #[derive(Clone, Debug)]
 struct PropSpec { s: String, o: String, class: String }
 #[derive(Clone, Debug)]
-struct RGrant { kinds: Vec<String>, types: Vec<String>, classes: Vec<String>, elements: Vec<String>, ceiling: String }
+struct RGrant { kinds: Vec<String>, types: Vec<String>, classes: Vec<String>, elements: Vec<String>, ceiling: String, actions: Vec<String>, fields: Vec<String>, export: bool }
+
+fn narrows(parent: &[String], child: &[String]) -> bool { parent.is_empty() || (!child.is_empty() && child.iter().all(|c| parent.contains(c))) }
+
+/// the harness's own reading of "this one authority of the delegator contains that Delegation's bounds"
+fn contains(p: &RGrant, c: &RGrant) -> bool {
+    narrows(&p.kinds, &c.kinds) && narrows(&p.types, &c.types) && narrows(&p.classes, &c.classes) && narrows(&p.elements, &c.elements) && narrows(&p.fields, &c.fields)
+        && (p.ceiling.is_empty() || (!c.ceiling.is_empty() && class_rank(&c.ceiling) <= class_rank(&p.ceiling))) && (p.export || !c.export)
+}
 
 #[derive(Clone, Debug, PartialEq)]
 enum Item { Elem(usize), Prop(usize) }
@@ -170,6 +181,8 @@ pub async fn run(ops: &[String], model: &mut Option<ModelProc>) -> Result<CaseOu
     let mut props: Vec<PropSpec> = vec![];
     let mut order: Vec<Item> = vec![];
     let mut grants: Vec<(String, String)> = vec![]; // raw (scope, cons) tokens
+    let mut dgrants: Vec<(String, String, String)> = vec![]; // (actions, scope, cons) of the delegator
+    let mut rdelegs: Vec<(String, String, String)> = vec![]; // (actions, scope, cons) of Delegations lead → reader
     let mut mask = "none".to_string();
     let mut queries: Vec<(Option<usize>, String)> = vec![];
     for op in ops {
@@ -179,13 +192,15 @@ pub async fn run(ops: &[String], model: &mut Option<ModelProc>) -> Result<CaseOu
             ["elem", name, ty, rank, tag, class] => { order.push(Item::Elem(elems.len())); elems.push(ElemSpec { name: name.to_string(), ty: ty.to_string(), rank: rank.parse().ok(), tag: (*tag != "-").then(|| tag.to_string()), class: str_of(class) }); }
             ["prop", s, o, class] => { order.push(Item::Prop(props.len())); props.push(PropSpec { s: s.to_string(), o: o.to_string(), class: str_of(class) }); }
             ["rgrant", sc, cs] => grants.push((sc.to_string(), cs.to_string())),
+            ["dgrant", acts, sc, cs] => dgrants.push((acts.to_string(), sc.to_string(), cs.to_string())),
+            ["rdeleg", acts, sc, cs] => rdelegs.push((acts.to_string(), sc.to_string(), cs.to_string())),
             ["mask", m] => mask = m.to_string(),
             ["q", ..] => queries.push((None, op[2..].to_string())),
             ["page", lim, ..] => { let l: usize = lim.parse().map_err(|_| "bad page")?; queries.push((Some(l), op[5 + lim.len() + 1..].to_string())); }
             _ => return Err(format!("bad op: {op}")),
         }
     }
-    if grants.is_empty() { return Err("no rgrant".into()); }
+    if grants.is_empty() && rdelegs.is_empty() { return Err("no rgrant / rdeleg".into()); }
 
     // ---- S: the full store ---------------------------------------------------------------------
     let s_nexus = fresh(true).await?;
@@ -230,16 +245,47 @@ pub async fn run(ops: &[String], model: &mut Option<ModelProc>) -> Result<CaseOu
     let gov = s_nexus.governance();
     gov.ensure_principal(PrincipalDraft { principal_id: READER.into(), principal_class: "agent".into(), display_name: "r".into(), auth_provider: "vh".into(), auth_subject: "r".into() }).await.map_err(|e| format!("{e:?}"))?;
     let mut model_lines = vec!["reset".to_string(), format!("principal {READER}")];
-    for (sc, cs) in &grants {
+    let resolve = |sc: &str, cs: &str, masked: bool| -> Result<(anda_cognitive_nexus::governance::rows::AuthorityScope, anda_cognitive_nexus::governance::rows::AuthorityConstraints), String> {
         let mut scope = parse_scope(sc).ok_or("bad scope")?;
         scope.schema_refs = scope.schema_refs.iter().map(|t| person_ref(t.trim_start_matches('@'))).collect();
         scope.elements = scope.elements.iter().map(|n| s.ids.get(n).cloned().or_else(|| n.strip_prefix("prop").and_then(|k| k.parse::<usize>().ok()).and_then(|k| s.prop_ids.get(k).cloned().flatten())).unwrap_or_else(|| n.clone())).collect();
         let mut cons = parse_cons(cs).ok_or("bad cons")?;
-        cons.fields = fields.clone();
-        rgrants.push(RGrant { kinds: scope.kinds.clone(), types: scope.schema_refs.clone(), classes: scope.classifications.clone(), elements: scope.elements.clone(), ceiling: cons.max_classification.clone() });
-        model_lines.push(format!("grant {DEFAULT_SPACE} {READER} - {} k={};t={};c={};e={} p=-;pa=-;as=-;from=0;until=0 {} 0", READ_ACTIONS.join(","),
-            show_csv(&scope.kinds), show_csv(&scope.schema_refs), show_csv(&scope.classifications), show_csv(&scope.elements), show_cons(&cons)));
+        if masked { cons.fields = fields.clone(); }
+        Ok((scope, cons))
+    };
+    let rg = |scope: &anda_cognitive_nexus::governance::rows::AuthorityScope, cons: &anda_cognitive_nexus::governance::rows::AuthorityConstraints, actions: Vec<String>| RGrant {
+        kinds: scope.kinds.clone(), types: scope.schema_refs.clone(), classes: scope.classifications.clone(), elements: scope.elements.clone(),
+        ceiling: cons.max_classification.clone(), actions, fields: cons.fields.clone(), export: cons.export };
+    let scope_tok = |scope: &anda_cognitive_nexus::governance::rows::AuthorityScope| format!("k={};t={};c={};e={}", show_csv(&scope.kinds), show_csv(&scope.schema_refs), show_csv(&scope.classifications), show_csv(&scope.elements));
+    for (sc, cs) in &grants {
+        let (scope, cons) = resolve(sc, cs, true)?;
+        rgrants.push(rg(&scope, &cons, READ_ACTIONS.iter().map(|a| a.to_string()).collect()));
+        model_lines.push(format!("grant {DEFAULT_SPACE} {READER} - {} {} p=-;pa=-;as=-;from=0;until=0 {} 0", READ_ACTIONS.join(","), scope_tok(&scope), show_cons(&cons)));
         gov.create_grant(GrantDraft { space_id: DEFAULT_SPACE.into(), grantee_principal: READER.into(), actions: READ_ACTIONS.iter().map(|a| a.to_string()).collect(), scope, constraints: cons, ..Default::default() }, SYSTEM_PRINCIPAL)
+            .await.map_err(|e| format!("{e:?}"))?;
+    }
+    // the delegator's own authorities and what it passes on: a Delegation confers `read` only if ONE delegable Grant of the
+    // delegator lists `read` and contains the Delegation's bounds — never a mix of two
+    let mut held: Vec<RGrant> = vec![];
+    if !dgrants.is_empty() || !rdelegs.is_empty() {
+        gov.ensure_principal(PrincipalDraft { principal_id: LEAD.into(), principal_class: "agent".into(), display_name: "l".into(), auth_provider: "vh".into(), auth_subject: "l".into() }).await.map_err(|e| format!("{e:?}"))?;
+        model_lines.push(format!("principal {LEAD}"));
+    }
+    for (acts, sc, cs) in &dgrants {
+        let (scope, cons) = resolve(sc, cs, false)?;
+        held.push(rg(&scope, &cons, csv(acts)));
+        model_lines.push(format!("grant {DEFAULT_SPACE} {LEAD} - {acts} {} p=-;pa=-;as=-;from=0;until=0 {} 1", scope_tok(&scope), show_cons(&cons)));
+        gov.create_grant(GrantDraft { space_id: DEFAULT_SPACE.into(), grantee_principal: LEAD.into(), actions: csv(acts), scope, constraints: cons, delegation_allowed: true, ..Default::default() }, SYSTEM_PRINCIPAL)
+            .await.map_err(|e| format!("{e:?}"))?;
+    }
+    for (acts, sc, cs) in &rdelegs {
+        let (scope, cons) = resolve(sc, cs, true)?;
+        let d = rg(&scope, &cons, csv(acts));
+        let confers_read = d.actions.iter().any(|a| a == "read") && held.iter().any(|g| g.actions.iter().any(|a| a == "read") && contains(g, &d));
+        out.hits.push(format!("nonint:delegation-{}", if confers_read { "confers-read" } else { "confers-no-read" }));
+        if confers_read { rgrants.push(d); }
+        model_lines.push(format!("deleg {DEFAULT_SPACE} {LEAD} {READER} {acts} {} p=-;pa=-;as=-;from=0;until=0 {} - 0", scope_tok(&scope), show_cons(&cons)));
+        gov.create_delegation(DelegationDraft { space_id: DEFAULT_SPACE.into(), delegator_principal: LEAD.into(), delegate_principal: READER.into(), actions: csv(acts), scope, constraints: cons, ..Default::default() }, LEAD)
             .await.map_err(|e| format!("{e:?}"))?;
     }
     let reader_auth = AuthContext::principal(READER);
@@ -273,6 +319,25 @@ pub async fn run(ops: &[String], model: &mut Option<ModelProc>) -> Result<CaseOu
                 out.disagreements.push(("may_read of an element".into(), ctx, ans, format!("may_read={real}")));
             }
         }
+    }
+    // delegate ⊆ delegator on the population: whatever the reader may read through Delegations alone, the delegator may read
+    if grants.is_empty() && !rdelegs.is_empty() {
+        let lead_auth = AuthContext::principal(LEAD);
+        let lead_ea = s_nexus.session(lead_auth.clone()).effective_authority(DEFAULT_SPACE).await.map_err(|e| format!("{e:?}"))?;
+        let mut pi = 0usize;
+        for it in &order {
+            let id = match it { Item::Elem(i) => s.ids[&elems[*i].name].clone(), Item::Prop(_) => { let id = s.prop_ids[pi].clone().unwrap(); pi += 1; id } };
+            let el = s_nexus.store.get_element(id.parse().map_err(|_| "id")?).await.map_err(|e| format!("{e:?}"))?;
+            if ea.may_read(&el, &reader_auth).is_some() && lead_ea.may_read(&el, &lead_auth).is_none() {
+                out.failures.push(("nonint:delegate-reads-what-its-delegator-cannot".into(), format!("the reader, whose only authority are Delegations of `lead`, may read {id}; `lead` may not"), ops.to_vec(), "delegate's readable set ⊆ delegator's".into(), format!("{id} readable by the delegate only")));
+                break;
+            }
+        }
+    }
+    if rgrants.is_empty() {
+        // the reader holds no `read` at all: every query is refused at the gate, there is nothing relational to compare
+        out.hits.push("nonint:abstain-reader-without-read".into());
+        return Ok(out);
     }
     let n_read = elem_readable.iter().filter(|x| **x).count();
     out.hits.push(format!("nonint:readable-{}", if n_read == 0 { "none" } else if n_read == elems.len() { "all" } else { "proper-subset" }));
@@ -336,6 +401,7 @@ pub async fn run(ops: &[String], model: &mut Option<ModelProc>) -> Result<CaseOu
                 cb.push_str(&format!(" | {}", canon(&exec(&r_owner, &format!("{qb} CURSOR \"{nb}\""), None).await, &rs.ids)));
             }
         }
+        if ca.starts_with("err:NotAuthorized") && !rdelegs.is_empty() { out.hits.push("nonint:abstain-delegate-lacks-gate-permission".into()); continue; }
         if ca.starts_with("err:") { out.hits.push(format!("nonint:answer-{}", ca.split(' ').next().unwrap_or(""))); if std::env::var("VH_C19_DEBUG").is_ok() { eprintln!("ERR {ca} <- {qa}"); } }
         if ca.starts_with("ok ") && !ca.starts_with("ok [] ") && !ca.starts_with("ok hits[] ") { any_nonempty = true; }
         if ca != cb {
@@ -423,7 +489,30 @@ pub fn gen_case(r: &mut Rng) -> Vec<String> {
     }
     // the reader's Grants
     let mask = match r.below(6) { 0 | 1 => "attributes", 2 => "name", _ => "none" };
-    let ng = 1 + r.usize(2);
+    let delegate_mode = r.chance(1, 3);
+    if delegate_mode {
+        // the reader holds nothing but Delegations of `lead`, who holds `read` narrowed one way and the other read-side
+        // permissions narrowed another way (or not at all): covered, mixed and wider Delegations
+        let bound = |r: &mut Rng| -> (String, String) {
+            match r.below(7) {
+                0 => ("k=concept;t=-;c=-;e=-".to_string(), "-".to_string()),
+                1 => ("k=-;t=@Person;c=-;e=-".to_string(), "-".to_string()),
+                2 => (format!("k=-;t=-;c={};e=-", r.pick(&["public", "public,internal"])), "-".to_string()),
+                3 | 4 => ("k=-;t=-;c=-;e=-".to_string(), r.pick(&["public", "internal", "private"]).to_string()),
+                _ => ("k=-;t=-;c=-;e=-".to_string(), "-".to_string()),
+            }
+        };
+        let b_read = bound(r);
+        let b_rest = bound(r);
+        ops.push(format!("dgrant read {} f=-;mr=-;mi=-;mc={};x=1", b_read.0, b_read.1));
+        ops.push(format!("dgrant search,discover,read_history,project,export {} f=-;mr=-;mi=-;mc={};x=1", b_rest.0, b_rest.1));
+        if r.chance(1, 4) { let b = bound(r); ops.push(format!("dgrant read {} f=-;mr=-;mi=-;mc={};x=1", b.0, b.1)); }
+        for _ in 0..(1 + r.usize(2)) {
+            let b = match r.below(5) { 0 | 1 => b_read.clone(), 2 | 3 => b_rest.clone(), _ => ("k=-;t=-;c=-;e=-".to_string(), "-".to_string()) };
+            ops.push(format!("rdeleg {} {} f=-;mr=-;mi=-;mc={};x=1", READ_ACTIONS.join(","), b.0, b.1));
+        }
+    }
+    let ng = if delegate_mode { 0 } else { 1 + r.usize(2) };
     for _ in 0..ng {
         let ceiling = *r.pick(&["-", "public", "internal", "internal", "private"]);
         let scope = match r.below(8) {
